@@ -1975,9 +1975,235 @@ func (c02) Class(in, obs Sx) (string, bool) {
 }
 
 // ---------------------------------------------------------------------------
-// resolution differential (kind 1): placeholder until defined below
+// resolution differential (kind 1)
 // ---------------------------------------------------------------------------
 
-func c02Diff(in Sx) (Sx, bool) { return Sx{}, false }
+type c02FakeResolver struct {
+	ref  local.BlockReference
+	seed uint64
+}
 
-func c02GenDiff(r *Rand) Sx { return L(A(1)) }
+func (f *c02FakeResolver) BlockReferenceToBlockIndex(r local.BlockReference) (int, uint64, bool) {
+	return 0, 0, false
+}
+func (f *c02FakeResolver) BlockIndexToBlockReference(i int) (local.BlockReference, uint64) {
+	return f.ref, f.seed
+}
+
+type c02PlainDev struct{ data []byte }
+
+func (d *c02PlainDev) ReadAt(p []byte, off int64) (int, error) {
+	if off >= int64(len(d.data)) {
+		return 0, io.EOF
+	}
+	return copy(p, d.data[off:]), nil
+}
+func (d *c02PlainDev) WriteAt(p []byte, off int64) (int, error) {
+	if off < 0 || off+int64(len(p)) > int64(len(d.data)) {
+		return 0, fmt.Errorf("write beyond device")
+	}
+	return copy(d.data[off:], p), nil
+}
+func (d *c02PlainDev) Sync() error  { return nil }
+func (d *c02PlainDev) Close() error { return nil }
+
+func c02U64(x Sx) (uint64, bool) {
+	if !x.IsAtom {
+		return 0, false
+	}
+	if x.Big != "" {
+		v, err := strconv.ParseUint(x.Big, 10, 64)
+		return v, err == nil
+	}
+	if x.Z < 0 {
+		return 0, false
+	}
+	return uint64(x.Z), true
+}
+
+// c02Diff: (1 cfg state records) -> (restored slots devbytes); see Run/R02.v.
+func c02Diff(in Sx) (Sx, bool) {
+	if in.Len() != 4 {
+		return Sx{}, false
+	}
+	cfg, ok := c02ParseCfg(in.Nth(1), L(L(A(1))))
+	if !ok {
+		return Sx{}, false
+	}
+	st := in.Nth(2)
+	if st.IsAtom || st.Len() != 3 || st.Nth(1).IsAtom || in.Nth(3).IsAtom {
+		return Sx{}, false
+	}
+	oldest, ok1 := c02U64(st.Nth(0))
+	hinit, ok2 := c02U64(st.Nth(2))
+	if !ok1 || !ok2 || oldest >= 1<<32 {
+		return Sx{}, false
+	}
+	ps := &pb.PersistentState{OldestEpochId: uint32(oldest), KeyLocationMapHashInitialization: hinit}
+	seen := map[int64]bool{}
+	for _, b := range st.Nth(1).List {
+		if b.IsAtom || b.Len() != 4 || b.Nth(3).IsAtom {
+			return Sx{}, false
+		}
+		for i := 0; i < 3; i++ {
+			if !b.Nth(i).IsAtom || b.Nth(i).Big != "" || b.Nth(i).Z < 0 || b.Nth(i).Z > 1<<30 {
+				return Sx{}, false
+			}
+		}
+		if seen[b.Nth(0).Z] || b.Nth(1).Z == 0 {
+			return Sx{}, false // the allocator attaches a region once; sizes are positive (proto3 zero = absent)
+		}
+		seen[b.Nth(0).Z] = true
+		seeds := []uint64{}
+		for _, x := range b.Nth(3).List {
+			v, ok := c02U64(x)
+			if !ok {
+				return Sx{}, false
+			}
+			seeds = append(seeds, v)
+		}
+		ps.Blocks = append(ps.Blocks, &pb.BlockState{
+			BlockLocation:    &pb.BlockLocation{OffsetBytes: b.Nth(0).Z, SizeBytes: b.Nth(1).Z},
+			WriteOffsetBytes: b.Nth(2).Z,
+			EpochHashSeeds:   seeds,
+		})
+	}
+	stateBytes, err := proto.Marshal(ps)
+	if err != nil {
+		return Sx{}, false
+	}
+	const rs = local.BlockDeviceBackedLocationRecordSize
+	idx := &c02PlainDev{data: make([]byte, cfg.nrec*rs)}
+	for _, r := range in.Nth(3).List {
+		if r.IsAtom || r.Len() != 9 || r.Nth(4).IsAtom || r.Nth(4).Len() != 32 {
+			return Sx{}, false
+		}
+		slot := r.Nth(0).Int()
+		seed, ok1 := c02U64(r.Nth(1))
+		epoch, ok2 := c02U64(r.Nth(2))
+		bfl, ok3 := c02U64(r.Nth(3))
+		att, ok4 := c02U64(r.Nth(5))
+		off, ok5 := c02U64(r.Nth(6))
+		size, ok6 := c02U64(r.Nth(7))
+		flip := r.Nth(8).Int()
+		if !r.Nth(0).IsAtom || slot < 0 || slot >= cfg.nrec || !ok1 || !ok2 || !ok3 || !ok4 || !ok5 || !ok6 ||
+			epoch >= 1<<32 || bfl >= 1<<16 || att >= 1<<32 || off >= 1<<62 || size >= 1<<62 || !r.Nth(8).IsAtom || flip < 0 {
+			return Sx{}, false
+		}
+		var key local.Key
+		for i, x := range r.Nth(4).List {
+			if !x.IsAtom || x.Z < 0 || x.Z > 255 {
+				return Sx{}, false
+			}
+			key[i] = byte(x.Z)
+		}
+		fr := &c02FakeResolver{ref: local.BlockReference{EpochID: uint32(epoch), BlocksFromLast: uint16(bfl)}, seed: seed}
+		lra := local.NewBlockDeviceBackedLocationRecordArray(idx, fr)
+		if err := lra.Put(slot, local.LocationRecord{RecordKey: local.LocationRecordKey{Key: key, Attempt: uint32(att)},
+			Location: local.Location{BlockIndex: 0, OffsetBytes: int64(off), SizeBytes: int64(size)}}); err != nil {
+			return Sx{}, false
+		}
+		if flip < rs {
+			idx.data[slot*rs+flip] ^= 1
+		}
+	}
+	media := &c02Media{data: make([]byte, cfg.bs()*cfg.nblocks()), index: idx.data, state: stateBytes}
+	w := newC02World(cfg.sector, media)
+	s, ok := newC02Store(cfg, w, false)
+	if !ok {
+		return Sx{}, false
+	}
+	if s.panicd {
+		return L(A(-1)), true
+	}
+	defer s.teardown()
+	slots, dev := []Sx{}, []Sx{}
+	s.lock.RLock()
+	for i := 0; i < cfg.nrec; i++ {
+		dev = append(dev, L(AI(i), LBytes(idx.data[i*rs:(i+1)*rs])))
+		r, err := s.lra.Get(i)
+		if err != nil {
+			continue
+		}
+		slots = append(slots, L(AI(i), LBytes(r.RecordKey.Key[:]), AU(uint64(r.RecordKey.Attempt)), AI(r.Location.BlockIndex),
+			A(r.Location.OffsetBytes), A(r.Location.SizeBytes)))
+	}
+	s.lock.RUnlock()
+	return L(s.restored, L(slots...), L(dev...)), true
+}
+
+func c02GenDiff(r *Rand) Sx {
+	sector := r.Pick([]int{16, 32})
+	spb := r.Pick([]int{2, 3, 4})
+	old, cur, nw, spare := r.Pick([]int{0, 1, 2}), r.Pick([]int{0, 1, 2}), r.Pick([]int{1, 2}), r.Pick([]int{0, 1, 2})
+	nrec := r.Pick([]int{5, 7, 11, 16})
+	cfg := L(AI(sector), AI(spb), AI(old), AI(cur), AI(nw), AI(spare), AI(nrec), A(4), A(8), A(5), A(0))
+	bs := sector * spb
+	nblocks := old + cur + nw + spare
+	oldest := uint64(r.Pick([]int{0, 1, 1, 7, 4294967294, 4294967295}))
+	perm := []int{}
+	for i := 0; i < nblocks; i++ {
+		perm = append(perm, i)
+	}
+	for i := len(perm) - 1; i > 0; i-- {
+		j := r.Intn(i + 1)
+		perm[i], perm[j] = perm[j], perm[i]
+	}
+	nb := r.Intn(nblocks + 1)
+	blocks := []Sx{}
+	type ep struct {
+		id   uint64
+		seed uint64
+		last int
+	}
+	eps := []ep{}
+	for b := 0; b < nb; b++ {
+		lo, sz := perm[b]*bs, bs
+		if r.Chance(7) {
+			lo += 1 // not a region of the allocator: restoration stops here
+		}
+		if r.Chance(4) {
+			sz = bs + sector
+		}
+		seeds := []Sx{}
+		for k := r.Pick([]int{0, 1, 1, 2, 3}); k > 0; k-- {
+			sd := r.U64()
+			if r.Chance(15) {
+				sd = uint64(r.Intn(3))
+			}
+			seeds = append(seeds, AU(sd))
+			eps = append(eps, ep{id: (oldest + uint64(len(eps))) % (1 << 32), seed: sd, last: b})
+		}
+		blocks = append(blocks, L(AI(lo), AI(sz), AI(r.Intn(bs+1)), L(seeds...)))
+	}
+	recs := []Sx{}
+	for k := 2 + r.Intn(9); k > 0; k-- {
+		var epoch, seed uint64
+		bfl := r.Pick([]int{0, 0, 0, 1, 1, 2, 3})
+		if len(eps) > 0 && !r.Chance(12) {
+			e := eps[r.Intn(len(eps))]
+			epoch, seed = e.id, e.seed
+			if r.Chance(12) {
+				seed = r.U64() // written under another (stale) seed
+			}
+			if r.Chance(8) {
+				seed ^= 1
+			}
+		} else {
+			epoch, seed = (oldest+uint64(r.Intn(6)))%(1<<32), r.U64()
+			if r.Chance(30) {
+				epoch = (oldest + (1 << 32) - 1 - uint64(r.Intn(2))) % (1 << 32)
+			}
+		}
+		key := make([]byte, 32)
+		for i := range key {
+			key[i] = byte(r.Intn(256))
+		}
+		flip := 100
+		if r.Chance(18) {
+			flip = r.Intn(66)
+		}
+		recs = append(recs, L(AI(r.Intn(nrec)), AU(seed), AU(epoch), AI(bfl), LBytes(key), AI(r.Intn(5)), AI(r.Intn(bs)), AI(r.Intn(bs)), AI(flip)))
+	}
+	return L(A(1), cfg, L(AU(oldest), L(blocks...), AU(r.U64())), L(recs...))
+}
